@@ -66,7 +66,27 @@ def gen_ref_specs(seed, n):
                         xtol=rng.choice([1e-4, 1e-4, 1e-6, 1e-2]), ftol=rng.choice([1e-4, 1e-4, 1e-7, 1e-2]),
                         maxiter=rng.choice([5, 30, 200]) if 0.75 < lim < 0.92 else None,
                         maxfun=rng.choice([50, 400]) if lim >= 0.92 else None))
+        if out[-1]['kind'] == 'powell' and k % 4 == 1:
+            # a caller-supplied direction set (integer or float entries, lists or an array; identity, reversed or sheared)
+            shape = rng.choice(['identity', 'reversed', 'sheared'])
+            rows = [[1 if i == j else 0 for j in range(ndim)] for i in range(ndim)]
+            if shape == 'reversed':
+                rows = rows[::-1]
+            elif shape == 'sheared' and ndim > 1:
+                rows = [[rows[i][j] + (1 if j == (i + 1) % ndim else 0) for j in range(ndim)] for i in range(ndim)]
+            out[-1]['direc'] = rows
+            out[-1]['direc_as'] = rng.choice(['int-lists', 'float-lists', 'int-array', 'float-array'])
     return out
+
+
+def _direc(spec):
+    rows = spec.get('direc')
+    if rows is None:
+        return None
+    how = spec['direc_as']
+    typ = int if how.startswith('int') else float
+    rows = [[typ(v) for v in r] for r in rows]
+    return np.array(rows, dtype=typ) if how.endswith('array') else rows
 
 
 def _vec(x):
@@ -135,11 +155,15 @@ def check_powell(spec, res):
     f = FUNCS[spec['func']]
     ra, rb, ca, cb = Recorder(f), Recorder(f), [], []
     kw = dict(xtol=spec['xtol'], ftol=spec['ftol'], maxiter=spec['maxiter'], maxfun=spec['maxfun'], full_output=1, disp=0)
-    a = fmin_powell(ra, list(spec['x0']), callback=lambda x: ca.append(_vec(x)), **kw)
-    b = ref.fmin_powell(rb, np.array(spec['x0'], dtype=float), callback=lambda x: cb.append(_vec(x)), **kw)
+    kwa, kwb = dict(kw), dict(kw)
+    if spec.get('direc') is not None:
+        kwa['direc'] = _direc(spec)
+        kwb['direc'] = np.array(spec['direc'], dtype=float)       # the reference is given the directions as floats
+    a = fmin_powell(ra, list(spec['x0']), callback=lambda x: ca.append(_vec(x)), **kwa)
+    b = ref.fmin_powell(rb, np.array(spec['x0'], dtype=float), callback=lambda x: cb.append(_vec(x)), **kwb)
     ax, af, ai, an, aw, ad = a          # mystic:    x, fval, iter, funcalls, warnflag, direc
     bx, bf, bd, bi, bn, bw = b          # reference: x, fval, direc, iter, funcalls, warnflag
-    res.case('fmin_powell:%s:%d:%s' % (spec['func'], spec['ndim'], spec['x0']), nontrivial=ai > 1)
+    res.case('fmin_powell:%s:%d:%s:%s' % (spec['func'], spec['ndim'], spec['x0'], spec.get('direc_as')), nontrivial=ai > 1)
     d = 'mystic (fopt,iter,funcalls,warn)=%r reference %r' % ((af, ai, an, aw), (bf, bi, bn, bw))
     K = P + 'fmin_powell/'
     # sub-case with an identified cause: the reference may stop after its first iteration (relative improvement over
